@@ -46,6 +46,12 @@ CHECKS = {
     'C17': dict(cat='exploration', ref='DESIGN.md 4/C17', note='Reference state machine written from the statement; announce_done generated only after a terminal status; concurrent part under vt/detsched.py with sys.monitoring line preemption.',
                 text='TransferCoordinator/TransferFuture versus a reference state machine: exhaustive over all operation sequences to length 6 (quick) / 7 (thorough) over 11 operations, Hypothesis sequences to 30, 2-3 thread histories with line-level preemption (done() monotone, linearizable final state) including a systematic single preemption at every executed line for all 2-thread one-operation scenarios.',
                 technique='model-based testing: exhaustive sequences + linearizability check under controlled schedules'),
+    'C19': dict(cat='exploration', ref='DESIGN.md 4/C19', note='The cross-process protocol is replayed in ONE process: s3transfer.processpool reaches multiprocessing/threading/signal/TransferMonitorManager/ClientFactory/OSUtils/open through module names that are rebound to controlled shims; real pickling, signals and OS process scheduling are not exercised. Every monitor call is a scheduling point.',
+                text='The real ProcessPoolDownloader/GetObjectSubmitter/GetObjectWorker/TransferMonitor objects run under the deterministic scheduler (1-3 workers, 1-2 downloads of 1-4 jobs, faults in head/allocate/any job/open/write/rename, cancels, exception or Ctrl-C leaving the with-block) with an oracle on the monitor protocol, the destination directory at the done moment and at every file-system mutation, and shutdown.',
+                technique='property-based testing: generated schedules + fault plans on an in-process replay of the process pool'),
+    'C20': dict(cat='exploration', ref='DESIGN.md 4/C20', note='A stub awscrt package stands for the CRT (absent here); requests are finished from controlled CRT threads that set finished_future and then call on_done, as awscrt does; only the Python glue in s3transfer/crt.py is judged; the 128-permit semaphore object is swapped for a 1-3 permit one.',
+                text='Generated histories of upload/download/delete submissions against a stub CRT client whose requests succeed, fail, are cancelled or fail at construction, in any completion order, with more transfers than permits, under generated schedules; oracle: permit conservation, on_done before callbacks-complete, rename xor remove, shutdown after every after-done handler.',
+                technique='property-based testing: generated submission/completion histories + schedules against a stub CRT'),
     'C18': e2e('2-4 concurrent transfers with a drawn subset failing or cancelled, then a fresh transfer and/or shutdown; oracle: untouched transfers succeed byte-exact, nothing happens after shutdown returns, all semaphores back at capacity.', 'Hypothesis cases + fault plans + schedules, isolation/barrier oracle', 'DESIGN.md 4/C18'),
 }
 NOT_YET = 'check not built yet in this working session (in progress; see DESIGN.md 4 for the plan)'
